@@ -62,3 +62,28 @@ Example C03_example :
   signed_spec I32 (decimal (-2147483648) ++ [32; 48]) = (Some (-2147483648)%Z, 11) /\
   varint_decode (varint_encode 300 ++ [7]) = Some (300, [7]).
 Proof. vm_compute. split; reflexivity. Qed.
+
+(* ------------------------------------------------------------------ *)
+(* BTOR2, whole documents (Btor2.v: parser program and writer function, both tied to the code by the pa stream —
+   every field of every parsed line and the bytes Line::write_into produces; Btor2Rt.v): parsing what the writer
+   wrote gives the lines back, with a clean end, for every list of lines in the format's domain (line_ok: ids and
+   counts in range, symbols non-empty without blanks/LF and not starting with ';', comments without LF, at least
+   one justice condition, constants valid for their radix — the values the validating constructors accept). *)
+From Flussab Require Import Cnf Btor2 Btor2Proofs Btor2Rt.
+
+Theorem C03_btor2_document_roundtrip : forall (fuel : nat) (ls : list line),
+  Forall line_ok ls ->
+  Forall (fun b => b < 256) (write_lines ls) ->
+  (length (write_lines ls) < fuel)%nat ->
+  exists s' v', srun (parse_btor2 fuel lrs_init) (view_init (write_lines ls) None) = ADone ((ls, FOk), s') v'.
+Proof. exact parse_btor2_roundtrip. Qed.
+Print Assumptions C03_btor2_document_roundtrip.
+
+(* a single line, anywhere in a stream, whatever follows it *)
+Theorem C03_btor2_line_roundtrip : forall (fuel : nat) (S : bytes) (l : line) (c : N) (v : view) (s : lrs) (rest : bytes),
+  Forall (fun b => b < 256) S -> (length S < fuel)%nat ->
+  line_ok l -> vS v = S -> vcur v = c -> WFV v -> vcur v <= vhwm v ->
+  nskipn c S = write_line l ++ rest ->
+  exists s' v', srun (next_line fuel s) v = ADone (Ok (Some l), s') v'.
+Proof. exact next_line_roundtrip. Qed.
+Print Assumptions C03_btor2_line_roundtrip.
